@@ -1,6 +1,6 @@
 """Sidecar contracts for dsw/spiderweb.py."""
 
-SUCC = "(u % ipow(4, observed_length - 1)) * 4 + j"
+SUCC = "succ(u, j, observed_length)"
 
 CONTRACTS = [
     # ------------------------------------------------------------------ C11
@@ -59,7 +59,9 @@ CONTRACTS = [
         # instantiation marker here(v): proofs that need an instance walk over the vertices in a ghost loop and mark(v).
         ghost_params={"S": "nd_bits"},
         requires={"order": "observed_length >= 1", "mask-length": "len(vertices) == ipow(4, observed_length)",
-                  "S-length": "len(S) == ipow(4, observed_length)",
+                  "S-length": "len(S) == ipow(4, observed_length)"},
+        # kept out of the queries until unstash(..): they are only needed where S is discussed
+        stashed_requires={
                   "S-inside-mask": "forall(lambda v: implies(S[v] != 0, vertices[v] != 0), 0, ipow(4, observed_length))",
                   "S-closed": "forall(lambda v: implies(S[v] != 0, nsucc(S, v, observed_length) >= threshold), 0, ipow(4, observed_length), lambda v: here(v))"},
         returns="tuple(nd_bits,mat(ipow(4, observed_length), 4))",
@@ -69,23 +71,38 @@ CONTRACTS = [
             "closed": "forall(lambda v: implies(result[0][v] != 0, nsucc(result[0], v, observed_length) >= threshold), 0, ipow(4, observed_length), lambda v: here(v))",
             "contains-every-closed-subset": "forall(lambda v: implies(S[v] != 0, result[0][v] != 0), 0, ipow(4, observed_length))",
             "non-empty": "exists(lambda v: result[0][v] != 0, 0, ipow(4, observed_length))",
-            "induced-accessor": "forall(lambda u: forall(lambda j: result[1][u][j] == ite(result[0][u] != 0 and result[0][(u % ipow(4, observed_length - 1)) * 4 + j] != 0, (u % ipow(4, observed_length - 1)) * 4 + j, -1), 0, 4), "
+            "induced-accessor": "forall(lambda u: forall(lambda j: result[1][u][j] == ite(result[0][u] != 0 and result[0][succ(u, j, observed_length)] != 0, succ(u, j, observed_length), -1), 0, 4), "
                                 "0, ipow(4, observed_length), lambda u: result[1][u])",
             "description-marks-vertices-with-arcs": "forall(lambda u: (result[0][u] != 0) == (result[1][u][0] >= 0 or result[1][u][1] >= 0 or result[1][u][2] >= 0 "
                                                     "or result[1][u][3] >= 0), 0, ipow(4, observed_length), lambda u: result[1][u])",
         },
         raises_only_when={"ValueError": "forall(lambda v: S[v] == 0, 0, ipow(4, observed_length))"},
         ghost={
-            "entry": "ipow_mono(4, 0, observed_length)\nmask0 = vertices",
+            "entry": "ipow_mono(4, 0, observed_length)\nmask0 = vertices\nunstash('S-inside-mask')",
+            "before_loop2": "stash('l1-inside-mask', forall(lambda v: implies(vertices[v] != 0, mask0[v] != 0), 0, ipow(4, observed_length)))\n"
+                            "stash('l1-contains-S', forall(lambda v: implies(S[v] != 0, vertices[v] != 0), 0, ipow(4, observed_length)))\n"
+                            "forget_eq('S-inside-mask')",
             "loop1_begin": "ssum_zero_iff(A(vertices), D(vertices), P(vertices, 0), P(vertices, len(vertices)))",
-            "after_loop2": "ssum_mono_eq(A(new_vertices), D(new_vertices), A(vertices), D(vertices), P(vertices, 0), P(vertices, len(vertices)))\n"
+            "loop2_end": "assert new_vertices[vertex_index] == ite(nsucc(vertices, vertex_index, observed_length) >= threshold, 1, 0), 'this-entry'\n"
+                         "assert vertices[vertex_index] != 0, 'entry-is-marked'",
+            "after_loop2": "pv_ = 0\npr = 0\n"
+                           "while pv_ < ipow(4, observed_length):\n"
+                           "    if pr < len(saved_indices) and saved_indices[pr] == pv_:\n"
+                           "        assert vertices[pv_] != 0 and new_vertices[pv_] == ite(nsucc(vertices, pv_, observed_length) >= threshold, 1, 0), 'listed-vertex'\n"
+                           "        pr += 1\n"
+                           "    else:\n"
+                           "        assert vertices[pv_] == 0 and new_vertices[pv_] == 0, 'unlisted-vertex-is-unmarked'\n"
+                           "    pv_ += 1\n"
+                           "ssum_mono_eq(A(new_vertices), D(new_vertices), A(vertices), D(vertices), P(vertices, 0), P(vertices, len(vertices)))\n"
                            "ssum_zero_iff(A(new_vertices), D(new_vertices), P(new_vertices, 0), P(new_vertices, len(new_vertices)))\n"
                            "ssum_zero_iff(A(vertices), D(vertices), P(vertices, 0), P(vertices, len(vertices)))\n"
+                           "unstash('l1-inside-mask')\nunstash('l1-contains-S')\nunstash('S-closed')\n"
                            "gv = 0\n"
                            "while gv < ipow(4, observed_length):\n"
                            "    mark(gv)\n"
                            "    assert implies(S[gv] != 0, new_vertices[gv] != 0), 'S-survives-this-round'\n"
                            "    gv += 1\n"
+                           "forget_eq('S-closed')\n"
                            "if ssum(vertices, 0, len(vertices)) == ssum(new_vertices, 0, len(new_vertices)):\n"
                            "    cv = 0\n"
                            "    while cv < ipow(4, observed_length):\n"
@@ -115,17 +132,25 @@ CONTRACTS = [
             }, variant="ssum(vertices, 0, len(vertices))"),
             2: dict(binds="enumerate(saved_indices)", invariant={
                 "length": "len(new_vertices) == ipow(4, observed_length)",
-                "processed": "forall(lambda v: new_vertices[v] == ite(vertices[v] != 0 and nsucc(vertices, v, observed_length) >= threshold, 1, 0), "
-                             "0, ite(_i < len(saved_indices), saved_indices[_i], len(vertices)), lambda v: new_vertices[v])",
-                "not-yet": "forall(lambda v: new_vertices[v] == 0, ite(_i < len(saved_indices), saved_indices[_i], len(vertices)), len(vertices))",
+                "processed-entries": "forall(lambda i: new_vertices[saved_indices[i]] == ite(nsucc(vertices, saved_indices[i], observed_length) >= threshold, 1, 0), "
+                                     "0, _i, lambda i: saved_indices[i])",
+                "only-marked-vertices-set": "forall(lambda v: implies(new_vertices[v] != 0, vertices[v] != 0) and (new_vertices[v] == 0 or new_vertices[v] == 1), "
+                                            "0, len(vertices), lambda v: new_vertices[v])",
             }),
-            "after_loop2#1": dict(invariant={"range": "0 <= gv <= ipow(4, observed_length)",
+            # walk over ALL vertices with the rank r of v in saved_indices: new_vertices[v] = (v marked and >= t marked successors)
+            "after_loop2#1": dict(invariant={
+                "range": "0 <= pv_ <= ipow(4, observed_length) and 0 <= pr <= len(saved_indices)",
+                "next-index-ahead": "implies(pr < len(saved_indices), saved_indices[pr] >= pv_)",
+                "previous-index-behind": "implies(pr > 0, saved_indices[pr - 1] < pv_)",
+                "processed": "forall(lambda v: new_vertices[v] == ite(vertices[v] != 0 and nsucc(vertices, v, observed_length) >= threshold, 1, 0), 0, pv_, lambda v: new_vertices[v])",
+            }, variant="ipow(4, observed_length) - pv_"),
+            "after_loop2#2": dict(invariant={"range": "0 <= gv <= ipow(4, observed_length)",
                                              "S-survives": "forall(lambda v: implies(S[v] != 0, new_vertices[v] != 0), 0, gv)"}, variant="ipow(4, observed_length) - gv"),
-            "after_loop2#2": dict(invariant={"range": "0 <= cv <= ipow(4, observed_length)",
+            "after_loop2#3": dict(invariant={"range": "0 <= cv <= ipow(4, observed_length)",
                                              "closed-so-far": "forall(lambda v: implies(vertices[v] != 0, nsucc(vertices, v, observed_length) >= threshold), 0, cv, "
                                                               "lambda v: here(v))"}, variant="ipow(4, observed_length) - cv"),
             3: dict(binds="range(int(len(nucleotides) ** observed_length))", invariant={
-                "finished-rows": "forall(lambda u: forall_q(lambda j: accessor[u][j] == ite(vertices[u] != 0 and vertices[(u % ipow(4, observed_length - 1)) * 4 + j] != 0, (u % ipow(4, observed_length - 1)) * 4 + j, -1), 0, 4), 0, _i)",
+                "finished-rows": "forall(lambda u: forall_q(lambda j: accessor[u][j] == ite(vertices[u] != 0 and vertices[succ(u, j, observed_length)] != 0, succ(u, j, observed_length), -1), 0, 4), 0, _i)",
                 "untouched-rows": "forall(lambda u: forall_q(lambda j: accessor[u][j] == -1, 0, 4), _i, ipow(4, observed_length))"}),
             "after_loop3#1": dict(invariant={"range": "0 <= du <= ipow(4, observed_length)",
                                              "rows-so-far": "forall(lambda u: (vertices[u] != 0) == (accessor[u][0] >= 0 or accessor[u][1] >= 0 or accessor[u][2] >= 0 "
@@ -371,3 +396,149 @@ CONTRACTS = CONTRACTS + [
                    "NoneV": "dsw.spiderweb.create_random_shuffles#noseed"}),
     shuffles_variant(True), shuffles_variant(False),
 ]
+
+
+# ------------------------------------------------------------------------------------------------------------------ encode (fast mode)
+WF_FAST = dict(WF)
+WF_FAST["reachable-closed"] = WF["reachable-closed"].replace("deg(accessor, v) >= 1 and rank[v] >= 0", "deg(accessor, v) >= 1 and deg(accessor, v) != 3 and rank[v] >= 0")
+
+
+def encode_fast_variant(shuffled, with_check):
+    name = "dsw.spiderweb.encode#fast" + ("-table" if shuffled else "") + ("-vt" if with_check else "")
+    req = dict(WF_FAST)
+    if shuffled:
+        req["table"] = "is_table(shuffles, k)"
+    if with_check:
+        req["check-length"] = "vt_length >= 1"
+    strand = "result[0]" if with_check else "result"
+    ens = {
+        "walk-length": "len(loc) == len(%s) + 1 and len(vtx) == len(%s) + 1" % (strand, strand),
+        "starts": "loc[0] == 0 and vtx[0] == start_index",
+        "carried-bits": "len(binary_message) <= loc[len(%s)] and loc[len(%s)] <= len(binary_message) + 1" % (strand, strand),
+        "published-scheme": "forall(lambda p: fast_step(accessor, shuffles, binary_message, loc, vtx, %s, p), 0, len(%s), lambda p: %s[p])" % (strand, strand, strand),
+    }
+    if with_check:
+        ens["check-length"] = "len(result[1]) == vt_length and is_dna(result[1])"
+        ens["check-first-symbol"] = "code(result[1][0]) == ssum(codes(result[0]), 0, len(result[0])) % 4"
+        ens["check-ascent-digits"] = "dnav(result[1], 1, vt_length) == ascents(result[0]) % ipow(4, vt_length - 1)"
+    return dict(
+        name=name, function="dsw.spiderweb.encode", variant_of="dsw.spiderweb.encode", n_loops=2,
+        ghost_params={"k": "nat", "R": "nd_bits", "rank": "list_int"},
+        params={"binary_message": "nd_bits", "accessor": "mat(ipow(4, k), 4)", "start_index": "nat", "is_faster": "true",
+                "vt_length": "nat" if with_check else "const0", "shuffles": "mat(ipow(4, k), 4)" if shuffled else "none",
+                "need_path": "false", "verbose": "false"},
+        requires=req,
+        returns="tuple(str,str)" if with_check else "str",
+        ghost_returns={"loc": "list_int", "vtx": "list_int"},
+        ensures=ens, raises={},
+        ghost={
+            "before_loop2": "loc = [location]\nvtx = [vertex_index]",
+            "loop2_begin": "mark(vertex_index)\n" + LIVE_SPLIT,
+            "loop2_end": "loc.append(location)\nvtx.append(vertex_index)\n"
+                         "assert fast_step(accessor, shuffles, binary_message, loc, vtx, dna_sequence, len(dna_sequence) - 1), 'new-step-follows-the-scheme'",
+        },
+        loops={2: dict(binds="location < len(binary_message)", invariant={
+            "lengths": "len(loc) == len(dna_sequence) + 1 and len(vtx) == len(dna_sequence) + 1",
+            "heads": "loc[0] == 0 and vtx[0] == start_index",
+            "current": "loc[len(dna_sequence)] == location and vtx[len(dna_sequence)] == vertex_index and 0 <= location and location <= len(binary_message) + 1",
+            "on-reachable-vertex": "0 <= vertex_index and vertex_index < " + N + " and R[vertex_index] != 0",
+            "published-scheme-so-far": "forall(lambda p: fast_step(accessor, shuffles, binary_message, loc, vtx, dna_sequence, p), 0, len(dna_sequence), "
+                                       "lambda p: dna_sequence[p])",
+        }, variant="(len(binary_message) + 1 - location, rank[vertex_index])")},
+        lemmas=["pv_store_frame"],
+    )
+
+
+_enc = next(c for c in CONTRACTS if c["name"] == "dsw.spiderweb.encode")
+_enc["dispatch"]["table"].update({
+    "true|NoneV|zero": "dsw.spiderweb.encode#fast", "true|NoneV|int": "dsw.spiderweb.encode#fast-vt",
+    "true|Mat|zero": "dsw.spiderweb.encode#fast-table", "true|Mat|int": "dsw.spiderweb.encode#fast-table-vt"})
+CONTRACTS = CONTRACTS + [encode_fast_variant(False, False), encode_fast_variant(True, False), encode_fast_variant(False, True), encode_fast_variant(True, True)]
+
+
+# ------------------------------------------------------------------------------------------------------------------ decode (fast mode)
+DEAD_F = DEAD
+
+
+def decode_fast_variant(shuffled, with_check):
+    name = "dsw.spiderweb.decode#fast" + ("-table" if shuffled else "") + ("-vt" if with_check else "")
+    req = dict(GRAPH)
+    req["no-out-degree-3"] = "forall(lambda v: deg(accessor, v) != 3, 0, " + N + ", lambda v: here(v))"
+    # the precondition the statement gives: the walkable prefix never needs a bit cell beyond the requested length
+    req["room"] = ("forall(lambda p: implies(walkv(accessor, dna_sequence, start_index, p + 1) >= 0 and "
+                   "deg(accessor, walkv(accessor, dna_sequence, start_index, p)) >= 2, floc(accessor, dna_sequence, start_index, p) < bit_length), "
+                   "0, len(dna_sequence), lambda p: here(p))")
+    if shuffled:
+        req["table"] = "is_table(shuffles, k)"
+    if with_check:
+        req["check-length"] = "len(vt_check) >= 1"
+    not_walk = "walkv(accessor, dna_sequence, start_index, len(dna_sequence)) < 0"
+    rz = ("(not (is_dna(dna_sequence) and vt_matches(vt_check, dna_sequence))) or " + not_walk) if with_check else not_walk
+    ghost = {
+        "before_loop3": "dgp = []\nddp = []\nvtxd = [vertex_index]\nlocd = [message_location]",
+        "loop3_begin": "v0 = vertex_index\nmark(vertex_index)\nmark(_i)\nmark(walkv(accessor, dna_sequence, start_index, _i + 1))\n" + LIVE_SPLIT,
+        "loop3_end": "dgp.append(deg(accessor, v0))\n"
+                     "ddp.append(ite(deg(accessor, v0) > 1, digit_of_arc(accessor, shuffles, v0, code(nucleotide)), 0))\n"
+                     "vtxd.append(vertex_index)\nlocd.append(message_location)\n"
+                     "assert dec_step(accessor, shuffles, dgp, ddp, vtxd, dna_sequence, _i), 'this-step'\n"
+                     "assert fast_cells(binary_message, dgp, ddp, locd, _i), 'cells-of-this-step'",
+        "before_raise5": DEAD_F,
+    }
+    loops_extra = {}
+    if with_check:
+        ghost["before_raise1"] = ("r = set_vt(dna_sequence, len(vt_check))\n"
+                                  "if vt_matches(vt_check, dna_sequence):\n"
+                                  "    pv_inj(A(codes(r)), 0, P(r, 1), A(codes(vt_check)), 0, P(vt_check, 1), len(vt_check) - 1, 4)\n"
+                                  "    j = 0\n"
+                                  "    while j < len(vt_check):\n"
+                                  "        assert codes(r)[j] == codes(vt_check)[j]\n"
+                                  "        j += 1\n"
+                                  "    assert r == vt_check, 'the-documented-check-is-unique'\n")
+        loops_extra["before_raise1#1"] = dict(invariant={
+            "range": "0 <= j <= len(vt_check) and len(r) == len(vt_check)",
+            "equal-so-far": "forall(lambda q: r[q] == vt_check[q], 0, j)"}, variant="len(vt_check) - j")
+        ghost["before_loop3"] = ("r = set_vt(dna_sequence, len(vt_check))\n"
+                                 "pv_ext(A(codes(vt_check)), 0, P(vt_check, 1), A(codes(r)), 0, P(r, 1), len(vt_check) - 1, 4)\n"
+                                 "stash('check-matches', is_dna(dna_sequence) and vt_matches(vt_check, dna_sequence))\n"
+                                 "cut()\n") + ghost["before_loop3"]
+        ghost["before_return"] = "unstash('check-matches')"
+    return dict(
+        name=name, function="dsw.spiderweb.decode", variant_of="dsw.spiderweb.decode", n_loops=3,
+        ghost_params={"k": "nat"},
+        params={"dna_sequence": "str", "bit_length": "nat", "accessor": "mat(ipow(4, k), 4)", "start_index": "nat", "is_faster": "true",
+                "vt_check": "str" if with_check else "none", "shuffles": "mat(ipow(4, k), 4)" if shuffled else "none", "verbose": "false"},
+        requires=req,
+        returns="nd_int",
+        ghost_returns={"dgp": "list_int", "ddp": "list_int", "vtxd": "list_int", "locd": "list_int"},
+        ensures={
+            "length": "len(result) == bit_length",
+            "ghost-lengths": "len(dgp) == len(dna_sequence) and len(ddp) == len(dna_sequence) and len(vtxd) == len(dna_sequence) + 1 and "
+                             "len(locd) == len(dna_sequence) + 1 and vtxd[0] == start_index and locd[0] == 0",
+            "reads-the-walk": "forall(lambda p: dec_step(accessor, shuffles, dgp, ddp, vtxd, dna_sequence, p), 0, len(dna_sequence), lambda p: dna_sequence[p])",
+            "bit-cells": "forall(lambda p: fast_cells(result, dgp, ddp, locd, p), 0, len(dna_sequence), lambda p: dgp[p])",
+            "untouched-cells-are-zero": "forall(lambda c: result[c] == 0, locd[len(dna_sequence)], bit_length)",
+        },
+        raises={"ValueError": rz},
+        ghost=ghost,
+        loops={
+            3: dict(binds="enumerate(dna_sequence)", invariant={
+                "walk-so-far": "vertex_index == walkv(accessor, dna_sequence, start_index, _i) and 0 <= vertex_index and vertex_index < " + N,
+                "cursor": "message_location == floc(accessor, dna_sequence, start_index, _i) and 0 <= message_location and len(binary_message) == bit_length",
+                "ghost-lengths": "len(dgp) == _i and len(ddp) == _i and len(vtxd) == _i + 1 and len(locd) == _i + 1 and vtxd[0] == start_index and "
+                                 "locd[0] == 0 and vtxd[_i] == vertex_index and locd[_i] == message_location",
+                "steps-so-far": "forall(lambda p: dec_step(accessor, shuffles, dgp, ddp, vtxd, dna_sequence, p), 0, _i, lambda p: dna_sequence[p])",
+                "cells-so-far": "forall(lambda p: fast_cells(binary_message, dgp, ddp, locd, p), 0, _i, lambda p: dgp[p])",
+                "cursor-monotone": "forall(lambda p: locd[p] <= locd[p + 1] and locd[p + 1] <= message_location, 0, _i, lambda p: locd[p])",
+                "untouched-cells-are-zero": "forall(lambda c: binary_message[c] == 0, message_location, bit_length)",
+            }),
+            **loops_extra,
+        },
+        lemmas=["pv_store_frame"],
+    )
+
+
+_dec = next(c for c in CONTRACTS if c["name"] == "dsw.spiderweb.decode")
+_dec["dispatch"]["table"].update({
+    "true|NoneV|NoneV": "dsw.spiderweb.decode#fast", "true|Mat|NoneV": "dsw.spiderweb.decode#fast-table",
+    "true|NoneV|str": "dsw.spiderweb.decode#fast-vt", "true|Mat|str": "dsw.spiderweb.decode#fast-table-vt"})
+CONTRACTS = CONTRACTS + [decode_fast_variant(False, False), decode_fast_variant(True, False), decode_fast_variant(False, True), decode_fast_variant(True, True)]
